@@ -8,7 +8,8 @@ namespace Jinns.Driver
     textbook loop and evaluates `Holds.C07` on the observation. -/
 def handleC07 (j : Json) : Except String Json := do
   let ld ← load j
-  let holds := Jinns.Holds.holdsC07 ld.ref ld.ob.error.isSome ld.ob.obs
+  let ref := ld.ref ()
+  let holds := Jinns.Holds.holdsC07 ref ld.ob.error.isSome ld.ob.obs
   pure (answer ld [] holds)
 
 def opsC07 : List (String × (Json → Except String Json)) := [("c07", handleC07)]
